@@ -27,10 +27,13 @@ Require(cond, k, rec, prop, why) == IF cond THEN TRUE ELSE Diag(k, rec, prop, wh
 \* module values travel 24 per integer, labels 8 per integer (3 bits each), row by row
 UnpackVals(n, vals) == TLCEval([i \in 1..n*n |-> LET r == (i-1) \div n c == (i-1) % n IN Bit(vals[r+1][(c \div 24)+1], c % 24)])
 UnpackTypes(n, types) == TLCEval([i \in 1..n*n |-> LET r == (i-1) \div n c == (i-1) % n IN (types[r+1][(c \div 8)+1] \div (8^(c % 8))) % 8])
-RegsOf(rec) == [input |-> rec.input, ecl |-> rec.opts.ecl, mode |-> rec.opts.mode, version |-> rec.opts.version, mask |-> rec.opts.mask]
+\* very long constant-content inputs travel as <<byte, length>>
+InputOf(rec) == IF "rep" \in DOMAIN rec THEN [i \in 1..rec.rep[2] |-> rec.rep[1]] ELSE rec.input
+RegsOf(rec) == [input |-> InputOf(rec), ecl |-> rec.opts.ecl, mode |-> rec.opts.mode, version |-> rec.opts.version, mask |-> rec.opts.mask]
 
 (* ---------------- Build: BuildStart .. Return composed ---------------- *)
-EvSize(rec) == IF rec.ev = "Build" /\ rec.out.kind = "Ok" THEN rec.out.size
+EvSize(rec) == IF rec.ev \in {"Build", "Corrupt"} THEN (IF rec.out.kind = "Ok" /\ rec.lite = 0 THEN rec.out.size ELSE 0)
+               ELSE IF rec.ev \in {"Blank", "MaskOp", "Candidates"} THEN rec.size
                ELSE 0
 NextLay(cur, rec) == LET v == VersionOfSize(EvSize(rec)) IN
                      IF v = 0 THEN cur ELSE IF cur.v = v THEN cur ELSE Layout(v)
@@ -66,9 +69,24 @@ BuildOk(k, rec, ly, s) ==
   IN IF checks THEN [grp |-> rec.grp, U |-> IF rec.grp = 0 THEN <<>> ELSE IF s.grp = rec.grp THEN s.U ELSE U]
      ELSE s
 
+\* outcome and reported fields only (no matrix in the event): used for the bulk of C05/C10 lengths
+BuildLite(k, rec, s) ==
+  LET b == RegsOf(rec) out == rec.out
+      mode == WantMode(b) e == WantLevel(b)
+      minv == MinVersion(mode, e, Len(b.input))
+      wantv == IF b.version >= 1 THEN b.version ELSE minv
+      checks ==
+        /\ Require(ExpectedOutcome(b) = "Ok", k, rec, "C05", "symbol returned where an error is documented")
+        /\ Require(out.version = wantv /\ out.size = Size(wantv), k, rec, "C05", "version")
+        /\ Require(out.ecl = e /\ out.mask \in 0..7 /\ (b.mask < 0 \/ out.mask = b.mask), k, rec, "C04", "forced option or default level not honoured")
+        /\ Require(out.mode = mode, k, rec, "C09", "mode")
+        /\ Require(out.tail_clean, k, rec, "C03", "module outside the size x size square modified")
+  IN IF checks THEN s ELSE s
+
 BuildStep(k, rec, ly, s) ==
   LET b == RegsOf(rec) IN
   IF ~InDomain(b) THEN s                                        \* BuildUnspecified: no claim
+  ELSE IF rec.out.kind = "Ok" /\ rec.lite = 1 THEN BuildLite(k, rec, s)
   ELSE IF rec.out.kind = "Ok" THEN
      IF VersionOfSize(rec.out.size) = 0 \/ ly.v # VersionOfSize(rec.out.size)
      THEN (IF Require(FALSE, k, rec, "C03", "side is not 17+4v") THEN s ELSE s)
@@ -79,8 +97,148 @@ BuildStep(k, rec, ly, s) ==
      (IF Require(ExpectedOutcome(b) = rec.out.why, k, rec, "C05", "error outcome") THEN s ELSE s)
   ELSE (IF Require(FALSE, k, rec, "C10", rec.out.kind) THEN s ELSE s)     \* Panic / Timeout match no action
 
+(* ---------------- Corrupt: environment action on a built symbol, then Recover (C02 corollary) ---------------- *)
+CorruptStep(k, rec, ly, s) ==
+  IF rec.out.kind # "Ok" \/ VersionOfSize(rec.out.size) = 0 \/ ly.v # VersionOfSize(rec.out.size)
+  THEN (IF Require(FALSE, k, rec, "C02", "no symbol to corrupt: " \o rec.out.kind) THEN s ELSE s)
+  ELSE
+  LET n == rec.out.size
+      M == UnpackVals(n, rec.out.vals)
+      d == Decode(n, M, ly, rec.out.ecl, IF rec.out.mask >= 0 THEN rec.out.mask ELSE 0)
+      es == rec.errors
+      shapeOK == d.nb = NbOf(ly.v, d.fe) /\ \A bk \in 1..d.nb : Len(d.blocks[bk]) = BlockLens(ly.v, d.fe)[bk] + d.ec
+      errsOf(bk) == SelectSeq(es, LAMBDA x : x[1] = bk)
+      wellFormed == /\ \A i \in DOMAIN es : es[i][1] \in 1..d.nb /\ es[i][2] \in 1..Len(d.blocks[es[i][1]]) /\ es[i][3] \in 1..255
+                    /\ \A i, j \in DOMAIN es : i # j => <<es[i][1], es[i][2]>> # <<es[j][1], es[j][2]>>
+                    /\ \A bk \in 1..d.nb : Len(errsOf(bk)) <= d.ec \div 2
+      corrupted(bk) == LET eb == errsOf(bk) IN
+                       TLCEval([i \in 1..Len(d.blocks[bk]) |-> FoldLeft(LAMBDA acc, x : IF x[2] = i THEN acc ^^ x[3] ELSE acc, d.blocks[bk][i], eb)])
+      checks ==
+        /\ Require(d.fmtOK, k, rec, "C04", "format information copies")
+        /\ Require(shapeOK, k, rec, "C02", "block layout")
+        /\ (shapeOK =>
+              /\ Require(wellFormed, k, rec, "TOOL", "driver produced an error pattern outside the claimed domain")
+              /\ (wellFormed =>
+                    /\ Require(SyndromesZero(d), k, rec, "C02", "syndromes")
+                    /\ Require(\A bk \in 1..d.nb : BMDecode(corrupted(bk), d.ec) = d.blocks[bk], k, rec, "C02", "corrupted block not recovered by Berlekamp-Massey decoding")))
+  IN IF checks THEN s ELSE s
+
+(* ---------------- component events (hook re-exports): one pipeline stage each ---------------- *)
+OkKind(k, rec, prop) == Require(rec.kind = "Ok", k, rec, prop, "stage did not return: " \o rec.kind)
+
+\* SelectVersion on a maximal run of lengths with the same answer: both ends suffice, MinVersion is monotone in the length
+VGetStep(k, rec) ==
+  /\ OkKind(k, rec, "C05")
+  /\ (rec.kind = "Ok" => Require(MinVersion(rec.mode, rec.ecl, rec.from) = rec.v /\ MinVersion(rec.mode, rec.ecl, rec.to) = rec.v, k, rec, "C05", "version lookup differs from the smallest sufficient version"))
+\* EncodeSegment .. PadCodewords
+EncodeStep(k, rec) ==
+  /\ OkKind(k, rec, "C06")
+  /\ (rec.kind = "Ok" =>
+        /\ Require(Len(rec.out) = DataCW(rec.version, rec.ecl), k, rec, "C06", "number of data codewords")
+        /\ Require(Len(rec.out) # DataCW(rec.version, rec.ecl) \/ rec.out = DataCodewordsOf(rec.input, rec.mode, rec.version, rec.ecl), k, rec, "C06", "data bits"))
+\* generator accessor
+PolyStep(k, rec) ==
+  LET d == EcOf(rec.version, rec.ecl) g == GenPoly(d) c == rec.coeffs IN
+  /\ Require(Len(c) = d + 1, k, rec, "C07", "generator degree differs from ISO Table 9")
+  /\ Require(Len(c) # d + 1 \/ \A j \in 1..d+1 : g[j] # 0 /\ c[j] = GFLog[g[j]], k, rec, "C07", "generator coefficients")
+\* ComputeEC on the single-non-zero-byte basis: R(b, 0) directly, R(b, k+1) = x * R(b, k) mod g from the recorded R(b, k)
+DivisionStep(k, rec) ==
+  LET d == rec.deg rs == rec.rems IN
+  /\ OkKind(k, rec, "C07")
+  /\ (rec.kind = "Ok" =>
+        /\ Require(Len(rs) = 123 /\ \A i \in 1..Len(rs) : Len(rs[i]) = d, k, rec, "C07", "remainder length")
+        /\ ((Len(rs) = 123 /\ \A i \in 1..Len(rs) : Len(rs[i]) = d) =>
+              /\ Require(rs[1] = RSRemainder(<<rec.byte>>, d), k, rec, "C07", "EC codewords are not the remainder")
+              /\ Require(\A i \in 1..122 : rs[i+1] = RSShift(rs[i], d), k, rec, "C07", "EC codewords are not the remainder (shifted basis block)")))
+DivBlockStep(k, rec) ==
+  /\ OkKind(k, rec, "C07")
+  /\ (rec.kind = "Ok" => Require(rec.out = RSRemainder(rec.data, rec.deg), k, rec, "C07", "EC codewords are not the remainder"))
+\* the crate's hard-coded tables against the derived ones
+TablesStep(k, rec) ==
+  LET v == rec.version e == rec.ecl t == rec.t
+      lens == BlockLens(v, e)
+      groupsOK == /\ t[4] + t[6] = NbOf(v, e)
+                  /\ \A bk \in 1..NbOf(v, e) : lens[bk] = IF bk <= t[4] THEN t[5] ELSE t[7]
+  IN /\ Require(t[1] = TotalCW(v) /\ t[2] = RemainderBits(v), k, rec, "C02", "codeword count")
+     /\ Require(t[3] = DataCW(v, e), k, rec, "C06", "number of data codewords")
+     /\ Require(t[4] + t[6] # NbOf(v, e) \/ groupsOK, k, rec, "C02", "block layout")
+     /\ Require(t[4] + t[6] = NbOf(v, e), k, rec, "C02", "block layout")
+     /\ Require(t[8] = Size(v), k, rec, "C03", "side is not 17+4v")
+     /\ Require(rec.cci = <<Cci(0, v), Cci(1, v), Cci(2, v)>>, k, rec, "C06", "character count width")
+     /\ Require({ rec.align[i] : i \in DOMAIN rec.align } = AlignPos(v), k, rec, "C03", "alignment centres")
+     /\ Require(rec.format = [m \in 1..8 |-> FormatWord(e, m - 1)], k, rec, "C04", "format information copies")
+     /\ Require(v < 7 \/ rec.vinfo = BCH18(v), k, rec, "C04", "version information")
+\* DrawBlank
+BlankStep(k, rec, ly) ==
+  IF VersionOfSize(rec.size) # rec.version \/ ly.v # rec.version THEN Require(FALSE, k, rec, "C03", "side is not 17+4v")
+  ELSE LET n == rec.size
+           o == [n |-> n, M |-> UnpackVals(n, rec.vals), T |-> UnpackTypes(n, rec.types), tail_clean |-> rec.tail_clean]
+           At(p) == o.M[p[1]*n + p[2] + 1]
+           v1 == FoldLeft(LAMBDA acc, b : acc + At(VersionPos1(n, b)) * 2^b, 0, Range0(18))
+           v2 == FoldLeft(LAMBDA acc, b : acc + At(VersionPos2(n, b)) * 2^b, 0, Range0(18))
+       IN /\ Require(NothingOutsideSquare(o), k, rec, "C03", "module outside the size x size square modified")
+          /\ Require(FunctionPatternsExact(o, ly), k, rec, "C03", "function pattern value")
+          /\ Require(LabelsExact(o, ly), k, rec, "C15", "type label differs from ISO region")
+          /\ Require(DataLabelCount(o, ly), k, rec, "C15", "number of data labels")
+          /\ Require(ly.v < 7 \/ (v1 = BCH18(ly.v) /\ v2 = BCH18(ly.v)), k, rec, "C04", "version information")
+\* ApplyMask alone: exactly the Table 10 condition on the encoding region, nothing else moves
+MaskOpStep(k, rec, ly) ==
+  IF rec.kind # "Ok" THEN OkKind(k, rec, "C08")
+  ELSE IF VersionOfSize(rec.size) # rec.version \/ ly.v # rec.version THEN Require(FALSE, k, rec, "C03", "side is not 17+4v")
+  ELSE LET n == rec.size
+           B == UnpackVals(n, rec.before)
+           A == UnpackVals(n, rec.after)
+       IN /\ Require(A = MaskedOf(ly, B, rec.mask), k, rec, "C08", "mask sweep differs from the ISO condition on the encoding region")
+          /\ Require(rec.types_after = rec.types, k, rec, "C15", "type label changed by masking")
+          /\ Require(rec.tail_clean, k, rec, "C03", "module outside the size x size square modified")
+BestModeStep(k, rec) == Require(rec.out = BestMode(rec.input), k, rec, "C09", "mode")
+\* the bit container as its own little machine (not a listed property: reported under G01)
+CompactStep(k, rec) ==
+  LET bitsOf(it) == [j \in 1..it[2] |-> Bit(it[1], it[2] - j)]
+      bits == FoldLeft(LAMBDA acc, it : acc \o bitsOf(it), <<>>, rec.items)
+      nb == (Len(bits) + 7) \div 8
+      byteOf(q) == FoldLeft(LAMBDA acc, j : 2*acc + (IF 8*(q-1) + j <= Len(bits) THEN bits[8*(q-1) + j] ELSE 0), 0, Range1(8))
+  IN /\ OkKind(k, rec, "G01")
+     /\ (rec.kind = "Ok" =>
+           /\ Require(rec.len = Len(bits), k, rec, "G01", "bit container length")
+           /\ Require(Len(rec.data) >= nb /\ \A q \in 1..Len(rec.data) : rec.data[q] = IF q <= nb THEN byteOf(q) ELSE 0, k, rec, "G01", "bit container content"))
+
+(* ---------------- Candidates: ScoreCandidate x 8 and ChooseMask as the selection loop saw them (C11) ---------------- *)
+CandStep(k, rec, ly) ==
+  IF rec.kind # "Ok" THEN (IF rec.kind \in {"EncodedData", "SpecifiedVersion"} THEN TRUE ELSE Require(FALSE, k, rec, "C10", rec.kind))
+  ELSE IF VersionOfSize(rec.size) = 0 \/ ly.v # VersionOfSize(rec.size) THEN Require(FALSE, k, rec, "C03", "side is not 17+4v")
+  ELSE IF rec.opts.mask >= 0 THEN Require(rec.chosen = rec.opts.mask, k, rec, "C11", "forced mask does not override the selection")
+  ELSE
+  LET n == rec.size
+      nc == Len(rec.cand)
+      dat == DataIndicator(ly)
+      vals == TLCEval([m \in 1..nc |-> UnpackVals(n, rec.cand[m].vals)])
+      shape == nc = 8 /\ { rec.cand[m].mask : m \in 1..nc } = 0..7 /\ rec.chosen \in 0..7
+      unm == MaskedOf(ly, vals[1], rec.cand[1].mask)
+      same == \A m \in 1..nc : MaskedOf(ly, vals[m], rec.cand[m].mask) = unm
+      pen == TLCEval([m \in 1..nc |-> Penalty(vals[m], dat, n)])
+      used == [m \in 1..nc |-> rec.cand[m].score]
+      idx == CHOOSE m \in 1..nc : rec.cand[m].mask = rec.chosen
+  IN /\ Require(shape, k, rec, "C11", "not all eight masks tried exactly once")
+     /\ (shape =>
+           /\ Require(same, k, rec, "C11", "candidates are not masks of the same placed codewords")
+           /\ PrintT(<<"NOTE", ToJson([id |-> rec.id, documented |-> pen, used |-> used, chosen |-> rec.chosen, agree |-> (used = pen)])>>)
+           /\ Require(pen[idx] = MinOfSeq(pen), k, rec, "C11", "chosen mask does not minimise the documented penalty"))
+
 StepOf(k, rec, ly, s) ==
   CASE rec.ev = "Build" -> BuildStep(k, rec, ly, s)
+    [] rec.ev = "Corrupt" -> CorruptStep(k, rec, ly, s)
+    [] rec.ev = "VersionGetRun" -> (IF VGetStep(k, rec) THEN s ELSE s)
+    [] rec.ev = "Encode" -> (IF EncodeStep(k, rec) THEN s ELSE s)
+    [] rec.ev = "Poly" -> (IF PolyStep(k, rec) THEN s ELSE s)
+    [] rec.ev = "Division" -> (IF DivisionStep(k, rec) THEN s ELSE s)
+    [] rec.ev = "DivBlock" -> (IF DivBlockStep(k, rec) THEN s ELSE s)
+    [] rec.ev = "Tables" -> (IF TablesStep(k, rec) THEN s ELSE s)
+    [] rec.ev = "Blank" -> (IF BlankStep(k, rec, ly) THEN s ELSE s)
+    [] rec.ev = "MaskOp" -> (IF MaskOpStep(k, rec, ly) THEN s ELSE s)
+    [] rec.ev = "BestMode" -> (IF BestModeStep(k, rec) THEN s ELSE s)
+    [] rec.ev = "Compact" -> (IF CompactStep(k, rec) THEN s ELSE s)
+    [] rec.ev = "Candidates" -> (IF CandStep(k, rec, ly) THEN s ELSE s)
     [] OTHER -> (IF Require(FALSE, k, rec, "TOOL", "unknown event kind") THEN s ELSE s)
 
 Init == l = 1 /\ lay = NoLayout /\ st = [grp |-> 0, U |-> <<>>] /\ TLCSet(1, 0)
